@@ -377,12 +377,26 @@ theorem cutAux_no_breaks : ∀ (s : Str) (i : Nat) (p : Char), GbLayout.cutAux [
     rw [GbLayout.cutAux, if_neg (by simp), cutAux_no_breaks rest (i + 1) c]
     rfl
 
+-- (w-gbparse, C01 widening) the value wrappers with the quotation-mark guard, without breaks
+theorem cutAuxV_no_breaks : ∀ (s : Str) (i : Nat) (p : Char), GbLayout.cutAuxV [] i p s = [s]
+  | [], _, _ => rfl
+  | c :: rest, i, p => by
+    rw [GbLayout.cutAuxV, if_neg (by simp), cutAuxV_no_breaks rest (i + 1) c]
+    rfl
+
+theorem wrapAuxV_no_breaks : ∀ (t : Str) (i : Nat) (p : Char), GbLayout.wrapAuxV [] i p t = [t]
+  | [], _, _ => rfl
+  | [_], _, _ => rfl
+  | c :: n :: rest, i, p => by
+    rw [GbLayout.wrapAuxV, if_neg (by simp), wrapAuxV_no_breaks (n :: rest) (i + 1) c]
+    rfl
+
 theorem qualLines_one (k v : Str) : GbLayout.qualLines k v [] 0 = [spaces 21 ++ ['/'] ++ k ++ ['=', '"'] ++ v ++ ['"']] := by
   unfold GbLayout.qualLines GbLayout.valueChunks
   rw [if_neg (by simp), if_neg (by simp)]
   split
-  · simp [GbLayout.cutText, cutAux_no_breaks, GbLayout.closeLast, GbLayout.hang, Str.spaces, spaces]
-  · simp [GbLayout.wrapText, wrapAux_no_breaks, GbLayout.closeLast, GbLayout.hang, Str.spaces, spaces]
+  · simp [GbLayout.cutTextV, cutAuxV_no_breaks, GbLayout.closeLast, GbLayout.hang, Str.spaces, spaces]
+  · simp [GbLayout.wrapTextV, wrapAuxV_no_breaks, GbLayout.closeLast, GbLayout.hang, Str.spaces, spaces]
 
 theorem qualsLines_keys (attrs : List (Str × Str)) : ∀ keys : List Str,
     GbLayout.qualsLines (keys.map fun k => (k, lookupD attrs k)) [] [] = keys.map (qualLine attrs)
